@@ -226,7 +226,8 @@ func (X *Exec) evalClause(fr *Frame, st *State, c *Clause, extra map[string]*Val
 func (X *Exec) evalClauseTop(st *State, c *Clause) *Term {
 	fr := X.TopFrame
 	sc := X.clauseCtx(fr, st, nil, fmt.Sprintf("%s:%d", c.File, c.Line))
-	sc.Fr = nil
+	// captured variables of a closure verified on its own are visible by name; locals are not
+	sc.Fr = &Frame{Fn: fr.Fn, Free: fr.Free, Cells: map[*ssa.Alloc]*Cell{}, Regs: map[ssa.Value]*Val{}}
 	for k, v := range fr.ParamEntry {
 		sc.Vars[k] = v
 	}
@@ -418,6 +419,7 @@ func (X *Exec) callFunction(fr *Frame, ins ssa.Instruction, callee *ssa.Function
 		if callee.Origin() != nil {
 			if k := X.E.P.Keys[callee.Origin()]; k != "" {
 				key, inRepo = k, true
+				X.pendingTypeArgs = callee.TypeArgs()
 				callee = callee.Origin()
 			}
 		}
@@ -432,6 +434,7 @@ func (X *Exec) callFunction(fr *Frame, ins ssa.Instruction, callee *ssa.Function
 		fs = X.E.Specs.Funcs["extern:"+key]
 	}
 	if fs != nil && !fs.Inline && (len(fs.Ensures) > 0 || len(fs.Requires) > 0 || fs.Pure || fs.ModAll || len(fs.Modifies) > 0 || fs.Trusted) {
+		X.pendingBindings = bindings
 		return X.applyContract(fr, st, fs, callee, nil, cc, args, pos)
 	}
 	if inRepo && callee.Blocks != nil && X.canInline(callee) {
@@ -503,6 +506,10 @@ func resultNames(fs *FuncSpec, sig *types.Signature) []string {
 // applyContract: assert requires, havoc modifies, assume ensures.
 func (X *Exec) applyContract(fr *Frame, st *State, fs *FuncSpec, callee *ssa.Function, recv *Val, cc *ssa.CallCommon, args []*Val, pos token.Pos) *Val {
 	ts := X.E.TS
+	bindings := X.pendingBindings
+	X.pendingBindings = nil
+	typeArgs := X.pendingTypeArgs
+	X.pendingTypeArgs = nil
 	sig := cc.Signature()
 	if fs.Trusted {
 		X.UsedTrusted[fs.Key]++
@@ -531,6 +538,27 @@ func (X *Exec) applyContract(fr *Frame, st *State, fs *FuncSpec, callee *ssa.Fun
 		c := &SpecCtx{X: X, St: cur, Old: old, Vars: map[string]*Val{}, OldVars: map[string]*Val{}, Bound: map[string]*Val{}, Pkg: pkg, What: what}
 		if callee != nil {
 			c.TypeEnv = typeEnvOf(callee)
+			if len(typeArgs) > 0 {
+				// an instantiation: the type parameters stand for the actual type arguments
+				env := map[string]types.Type{}
+				tps := callee.Signature.RecvTypeParams()
+				if tps == nil || tps.Len() == 0 {
+					tps = callee.Signature.TypeParams()
+				}
+				if tps != nil && tps.Len() == len(typeArgs) {
+					for i := 0; i < tps.Len(); i++ {
+						env[tps.At(i).Obj().Name()] = typeArgs[i]
+					}
+					c.TypeEnv = env
+				}
+			}
+			// the captured variables of a closure called by contract: visible by name, read through their cells
+			if len(bindings) == len(callee.FreeVars) && len(bindings) > 0 {
+				c.FreeBind = map[string]*Val{}
+				for i, fv := range callee.FreeVars {
+					c.FreeBind[fv.Name()] = bindings[i]
+				}
+			}
 		}
 		for k, v := range vars {
 			c.Vars[k] = v
@@ -580,6 +608,9 @@ func (X *Exec) applyContract(fr *Frame, st *State, fs *FuncSpec, callee *ssa.Fun
 		}
 	}
 	for _, e := range fs.Ensures {
+		if mentionsGhost(e.Expr, fs) {
+			continue // a statement about the callee's own ghost trace: means nothing to a caller
+		}
 		post.What = fmt.Sprintf("%s:%d", e.File, e.Line)
 		st.assume(ts, post.EvalBool(e.Expr))
 	}
@@ -960,4 +991,23 @@ func (X *Exec) iteVals(s1 *State, cnd *Term, a, b *Val) *Val {
 		return b
 	}
 	return &Val{T: ts.Ite(cnd, a.T, b.T), GT: a.GT}
+}
+
+func mentionsGhost(e *SExpr, fs *FuncSpec) bool {
+	if e == nil || len(fs.Ghosts) == 0 {
+		return false
+	}
+	if e.Kind == "ident" {
+		for _, g := range fs.Ghosts {
+			if g.Name == e.Name {
+				return true
+			}
+		}
+	}
+	for _, a := range e.Args {
+		if mentionsGhost(a, fs) {
+			return true
+		}
+	}
+	return false
 }
